@@ -262,3 +262,33 @@ def run(prog, chk):
             chk.fail("R16.4", owner(b.name), "on_exit-before-exec", "%s can reach on_exit before exec at %s" % (bad[0].best_callee(), b.loc(t.line)))
         else:
             chk.ok("R16.4", "exec:" + owner(b.name), "no callee on a path to exec reaches on_exit", function=owner(b.name))
+    exit_in_handler_rule(prog, chk)
+
+
+def exit_in_handler_rule(prog, chk):
+    """R16.5: "the process ends with that status unless the handler itself calls `exit`". invoke_trap_handler restores `$?` after the
+    handler (R16.3), so an `exit N` inside the EXIT handler can only decide the final status if on_exit looks at the handler's result:
+    a store to the last exit status (or a returned exit code) control dependent on the ExitShell control flow of that result."""
+    chk.rule("R16.5", "on_exit inspects the EXIT handler's result: when the handler called `exit`, its status becomes the status the shell ends with")
+    b = prog.impl_body(ON_EXIT)
+    if not chk.anchor("R16.5", ON_EXIT, b):
+        return
+    c = cfg_of(b)
+    d = defs_of(b)
+    inv = [(bb, t) for bb, t in b.calls() if (t.best_callee() or "").endswith("::invoke_trap_handler")]
+    if not inv:
+        chk.fail("R16.5", ON_EXIT, "handler-call-missing", "on_exit does not call invoke_trap_handler")
+        return
+    from rulelib import enum_switches
+    sws = [x for x in enum_switches(prog, b, "brush_core::results::ExecutionControlFlow") if c.dominates(inv[0][0], x[0])]
+    sets = [bb for bb, t in b.calls() if (t.best_callee() or "").endswith(("::set_last_exit_status",))] + \
+        [bb for bb, i, s in field_stores(b, "shell::Shell", "last_exit_status")]
+    ok = any(any(x in c.reachable_from(m.get("ExitShell", -1)) for x in sets) for sbb, m, other, rest, _ in sws if m.get("ExitShell") is not None)
+    # alternatively the exit code is handed to the caller
+    returns_code = "ExecutionExitCode" in b.ret or "ExecutionResult" in b.ret
+    if ok or (sws and returns_code):
+        chk.ok("R16.5", "exit-in-handler-decides-status", "the handler's ExitShell result is turned into the final status", function=ON_EXIT)
+    else:
+        chk.fail("R16.5", ON_EXIT, "exit-in-exit-handler-ignored",
+                 "on_exit discards the result of the EXIT handler; invoke_trap_handler restores `$?` after it, and the front-ends end with the status saved "
+                 "before the handler: `trap 'exit 3' EXIT; true` ends with 0 (bash 3), `trap 'exit 0' EXIT; exit 99` with 99 (bash 0)")
